@@ -77,7 +77,8 @@ Section Network.
         let unrolled := concat (repeat layers loops) in
         let coupled := map (fun l => map (fun i => l + i * len) (seq 0 loops)) (seq 0 len) in
         let ins := if inskips then map (fun i => (i * len, [0])) (seq 1 (loops - 1)) else [] in
-        let outs := if outskips then [(loops * len, map (fun i => i * len) (seq 1 (loops - 1)))] else [] in
+        let outs := if outskips && negb (loops - 1 =? 0)
+                    then [(loops * len, map (fun i => i * len) (seq 1 (loops - 1)))] else [] in
         (* insertion order: for i in 1..loops { in-skip i }, then the out-skip entry *)
         Ok {| f_inputs := inputs; f_outputs := outputs; f_optimizer := default_sgd;
               f_flatten := false; f_layers := unrolled;
@@ -148,7 +149,9 @@ Section Network.
     fo_pre : tensor; fo_post : tensor; fo_max : list (option maxidx);
     fo_unactivated : list tensor; fo_activated : list tensor }.
 
-  Definition feedback_forward (b : feedback) (input : tensor) : res fb_out :=
+  Definition feedback_forward (b : feedback) (input0 : tensor) : res fb_out :=
+    (* a flat input of a spatial block is read as the block's announced input shape *)
+    do input <- (if shape_eqb (tshape input0) (f_inputs b) then Ok input0 else reshape input0 (f_inputs b));
     do st <- foldM (fun (st : list tensor * list tensor * list (option maxidx)) il =>
                 let '(unact, act, mps) := st in
                 let '(i, lyr) := (il : nat * blayer) in
@@ -174,8 +177,17 @@ Section Network.
     Ok {| fo_pre := pre0; fo_post := last2; fo_max := mps;
           fo_unactivated := unact; fo_activated := act' ++ [last2] |}.
 
-  (* invert {to: [from]} into {from: [to...]}, iterating the map in the order [order] *)
-  Definition invert_connect (m : list (nat * list nat)) : list (nat * list nat) :=
+  (* entries sorted by key (the maps are iterated in key order) *)
+  Fixpoint insert_sorted {V} (kv : nat * V) (l : list (nat * V)) : list (nat * V) :=
+    match l with
+    | [] => [kv]
+    | x :: r => if fst kv <=? fst x then kv :: l else x :: insert_sorted kv r
+    end.
+  Definition sort_by_key {V} (l : list (nat * V)) : list (nat * V) := fold_right insert_sorted [] l.
+
+  (* invert {to: [from]} into {from: [to...]}, iterating the map in key order *)
+  Definition invert_connect (m0 : list (nat * list nat)) : list (nat * list nat) :=
+    let m := sort_by_key m0 in
     fold_left (fun inv kv =>
       fold_left (fun inv idx =>
         match alist_get inv idx with
@@ -528,9 +540,8 @@ Section Network.
     | LConv c => match c_inputs c with STriple a b c' => Ok (a * b * c') | _ => Panic P_explicit end
     | LDeconv c => match dc_inputs c with STriple a b c' => Ok (a * b * c') | _ => Panic P_explicit end
     | LMaxpool m =>
-        if is_from then Panic P_explicit
-        else match m_inputs m with
-             | SSingle k => Ok k | STriple a b c' => Ok (a * b * c') | _ => Panic P_explicit end
+        match m_inputs m with
+        | SSingle k => Ok k | STriple a b c' => Ok (a * b * c') | _ => Panic P_explicit end
     | LFeedback f =>
         match f_inputs f with
         | SSingle k => Ok k | STriple a b c' => Ok (a * b * c') | _ => Panic P_explicit end
@@ -539,8 +550,7 @@ Section Network.
   Definition add_connect (n : network) (infrom into : nat) : res network :=
     let len := length (n_layers n) in
     check (negb ((len <? infrom) || (len <=? into) || (into <? infrom))) else P_explicit;
-    (* the membership test is on `infrom`, while the map is keyed by `into` *)
-    check (negb (alist_mem (n_connect n) infrom)) else P_explicit;
+    check (negb (alist_mem (n_connect n) into)) else P_explicit;
     do lf <- nth_res (n_layers n) infrom;
     do lt <- nth_res (n_layers n) into;
     do cf <- connect_count lf true;
@@ -722,7 +732,7 @@ Section Network.
           (* the loop iterations *)
           do its <- foldM (fun (acc : tensor * list fwd) _ =>
                       let cur0 := fst acc in
-                      do cur1 <- (if shape_eqb (layer_inputs li) (layer_outputs lo) then Ok cur0
+                      do cur1 <- (if shape_eqb (layer_inputs li) (tshape cur0) then Ok cur0
                                   else reshape cur0 (layer_inputs li));
                       do cur <- (if inskips then do a <- nth_res (fw_post st1) into; add_inplace cur1 a
                                  else Ok cur1);
@@ -757,7 +767,7 @@ Section Network.
   (* ------------------------------------------------------------ backward *)
   (* {to: from} -> {from: to}; a later entry with the same source overwrites an earlier one *)
   Definition invert_net_connect (m : list (nat * nat)) : list (nat * nat) :=
-    fold_left (fun inv kv => alist_set inv (snd kv) (fst kv)) m [].
+    fold_left (fun inv kv => alist_set inv (snd kv) (fst kv)) (sort_by_key m) [].
 
   Definition layer_backward (l : layer) (g input output : tensor) (mx : option mpval)
              (fb : option (list tensor * list tensor))
